@@ -59,6 +59,7 @@ def check_chunk(args):
     path = os.path.join(d, "t.f90")
     try:
         for case in cases:
+            core.tick(case, 60)
             text = "\n".join(case["lines"]) + "\n"
             with open(path, "w", newline="") as f:
                 f.write(text)
@@ -107,6 +108,7 @@ def header_chunk(args):
     fails = []
     stats = {"evals": 0}
     for case in cases:
+        core.tick(case, 300)
         d = tempfile.mkdtemp(prefix="c17h-", dir=workdir)
         try:
             root = os.path.join(d, "root")
